@@ -278,6 +278,7 @@ def _e_sin(ctx, c): return lambda x: ctx.sin(x) - c
 def _e_cos(ctx, c): return lambda x: ctx.cos(x) - x
 def _e_xexp(ctx, c): return lambda x: x * ctx.exp(x) - c
 def _e_atan(ctx, c): return lambda x: ctx.atan(x) - c
+def _e_inv(ctx, c): return lambda x: c / x
 
 
 ELEM = {   # name -> (python f builder, real term builder, float root locator, domain predicate on the returned x)
@@ -287,6 +288,9 @@ ELEM = {   # name -> (python f builder, real term builder, float root locator, d
     "cos_x": (_e_cos, lambda X, c: cert.cos(X) - X, lambda c: 0.7390851332151607, lambda x: True),
     "xexp_c": (_e_xexp, lambda X, c: X * cert.exp(X) - c, None, lambda x: True),
     "atan_c": (_e_atan, lambda X, c: cert.atan(X) - c, lambda c: math.tan(c), lambda x: True),
+    # no root at all: the iterations run off to large |x| where f is small but not below the tolerance; whatever is returned must
+    # still satisfy |f(x)|^2 <= tol
+    "inv_c": (_e_inv, lambda X, c: c / X, lambda c: 3.0, lambda x: x != 0),
 }
 
 
@@ -867,7 +871,9 @@ def gen_open_case(rng, prec, solver):
 
 def gen_elem_case(rng, prec, solver, bracket):
     name = rng.choice(sorted(ELEM))
-    if name == "exp_c": c = Fraction(rng.randint(1, 40), 4)
+    if bracket and name == "inv_c": name = "exp_c"
+    if name == "inv_c": c = Fraction(2) ** rng.randint(-4, 12)
+    elif name == "exp_c": c = Fraction(rng.randint(1, 40), 4)
     elif name == "ln_c": c = Fraction(rng.randint(-8, 8), 4)
     elif name == "sin_c": c = Fraction(rng.randint(-7, 7), 8)
     elif name == "xexp_c": c = Fraction(rng.randint(1, 40), 4)
@@ -901,9 +907,26 @@ def gen_elem_case(rng, prec, solver, bracket):
 def gen_bracket_case(rng, prec, solver):
     regime = rng.choice(["bracket_simple", "bracket_simple", "bracket_root_near_end", "bracket_odd_multiple", "bracket_outside_roots",
                          "bracket_outside_roots", "bracket_outside_roots", "bracket_wide", "bracket_wide", "bracket_few_steps",
-                         "bracket_user_tol", "bracket_elementary", "bracket_end_is_root"])
+                         "bracket_user_tol", "bracket_elementary", "bracket_end_is_root", "bracket_hump", "bracket_hump"])
+    if solver in ("anderson", "pegasus", "illinois") and rng.random() < 0.4:
+        regime = "bracket_hump"            # the interpolating solvers are the ones that can lose the bracket on a hump
     if regime == "bracket_elementary":
         return gen_elem_case(rng, prec, solver, bracket=True)
+    if regime == "bracket_hump":
+        # (x - r2)(x - r)((x - c)^2 + d): the root r inside [a, b], a second real root just outside a, and a pronounced hump next
+        # to b (a conjugate pair c +- i sqrt(d) close to the real axis): interpolation steps overshoot, the bracket must survive
+        r = Fraction(rng.choice([1, 1, 2, 3]))
+        r2 = r - Fraction(rng.choice([3, 5, 6, 8, 12]), 4)
+        cc = r + Fraction(rng.randint(3, 5)); q = Fraction(rng.choice([1, 1, 2, 3]), 2)
+        a = r2 + Fraction(rng.choice([1, 2, 2]), 4)
+        if a >= r: a = (r2 + r) / 2
+        b = cc
+        cs = from_roots([(r, Fraction(0)), (r2, Fraction(0)), (cc, q), (cc, -q)])
+        fa, fb = peval(cs, (a, Fraction(0)))[0], peval(cs, (b, Fraction(0)))[0]
+        if not (a < r < b and fa * fb < 0):
+            return None
+        return {"fn": "findroot", "regime": regime, "prec": prec, "solver": solver, "problem": {"kind": "poly", "coeffs": enc_coeffs(cs)},
+                "x0": [enc_arg(a), enc_arg(b)], "tol": None, "maxsteps": None, "verify": True, "deriv": "num"}
     rr = q_small(rng)
     m = 3 if regime == "bracket_odd_multiple" else 1
     if regime == "bracket_end_is_root":
@@ -1059,6 +1082,13 @@ def generate_calls(rng, tier_):
                     calls.append(c); n += 1
                     c2 = json.loads(json.dumps(c)); c2["verify"] = False     # clause 2 does not depend on the verification step
                     calls.append(c2)
+        if prec <= 64:
+            # a function without a root (c/x): a diverging iteration must not be returned as a root; explicit tolerance 2^-prec
+            for _ in range(4 if tier_ == "quick" else 12):
+                calls.append({"fn": "findroot", "regime": "no_root", "prec": prec, "solver": rng.choice(["secant", "newton"]),
+                              "problem": {"kind": "elem", "name": "inv_c", "c": enc_dy(Fraction(2) ** rng.randint(0, 11))},
+                              "x0": [enc_arg(Fraction(rng.choice([9, 12, 18, 20, 26, 28, 36, 46]), 4))], "tol": enc_dy(Fraction(1, 2 ** prec)),
+                              "maxsteps": None, "verify": True, "deriv": "num"})
         for _ in range(rep_sys):
             calls.append(gen_sys_case(rng, prec))
         for m in (1, 2, 3, 4):
